@@ -48,7 +48,17 @@ fn gen_tween(rng: &mut Rng) -> TweenSpec {
 
 fn gen_case(seed: u64, tier: Tier) -> Case {
 	let mut rng = Rng::new(seed);
+	// long runs: more source frames are consumed than the streaming sound's ring buffer
+	// (16384 slots) holds, so its read and write positions wrap around
+	let long = rng.chance(0.03);
 	let len = match rng.below(10) {
+		_ if long => {
+			if rng.chance(0.5) {
+				rng.urange(17_000, 45_000)
+			} else {
+				rng.urange(4, 300)
+			}
+		}
 		0 => rng.urange(0, 4),
 		1..=6 => rng.urange(4, 300),
 		_ => rng.urange(300, 3000),
@@ -77,7 +87,12 @@ fn gen_case(seed: u64, tier: Tier) -> Case {
 			Pos::Secs(i as f64 / sample_rate as f64)
 		}
 	};
-	let loop_region = if rng.chance(0.45) {
+	let loop_region = if long && len < 17_000 {
+		Some(RegionSpec {
+			start: Pos::Samples(rng.usize_below(n.max(2) / 2)),
+			end: None,
+		})
+	} else if rng.chance(0.45) {
 		let a = rng.usize_below(n + 1);
 		let b = match rng.below(4) {
 			0 => None,
@@ -91,6 +106,7 @@ fn gen_case(seed: u64, tier: Tier) -> Case {
 		None
 	};
 	let rate = match rng.below(10) {
+		_ if long => *rng.pick(&[1.0, 1.0, 1.7, 2.0]),
 		0..=3 => 1.0,
 		4 => 0.0,
 		5 => 0.5,
@@ -122,8 +138,9 @@ fn gen_case(seed: u64, tier: Tier) -> Case {
 		fail_seek: vec![],
 		fail_sticky: false,
 	};
-	let device_rate = if rng.chance(0.6) { sample_rate } else { *rng.pick(&[8000u32, 44_100, 48_000, 96_000]) };
+	let device_rate = if long || rng.chance(0.6) { sample_rate } else { *rng.pick(&[8000u32, 44_100, 48_000, 96_000]) };
 	let budget = match tier {
+		_ if long => rng.urange(17_500, 36_000),
 		Tier::Quick => 700,
 		Tier::Thorough => 2500,
 	};
@@ -132,6 +149,7 @@ fn gen_case(seed: u64, tier: Tier) -> Case {
 	let mode = rng.below(3);
 	while total < budget {
 		let c = match mode {
+			_ if long => *rng.pick(&[128usize, 500, 1000, 1021]),
 			0 => rng.urange(1, 16),
 			1 => *rng.pick(&[1usize, 7, 64, 128]),
 			_ => rng.urange(1, 200),
@@ -140,7 +158,7 @@ fn gen_case(seed: u64, tier: Tier) -> Case {
 		total += c;
 	}
 	let mut cmds = Vec::new();
-	if rng.chance(0.6) {
+	if !long && rng.chance(0.6) {
 		let k = rng.urange(1, 5);
 		for _ in 0..k {
 			let at = rng.usize_below(chunks.len());
